@@ -4,7 +4,7 @@
 # usage: eval_all_seeds.sh [id-prefix]      e.g. eval_all_seeds.sh C03
 cd /verif
 fail=0
-for d in seeded/${1:-}*/; do
+for d in seeded/${1:-C}*/; do
   id=$(basename $d)
   [ "$id" = "benign" ] && continue
   pids=$(python3 - "$d" <<'PY'
